@@ -12,6 +12,7 @@
 -/
 import PyshaclProofs.InvarianceProofs
 import PyshaclProofs.CoreInvariance
+import PyshaclProofs.FocusSet
 namespace Pyshacl.C09
 open Pyshacl
 
@@ -44,5 +45,13 @@ theorem core_results_graph_order_invariant (s : Shape) (dg dg' : Graph) (h : Sam
 theorem per_value_results_set_order_invariant (s : Shape) (k : CKind) (fv fv' : FV) (ok : Term → Term → Bool)
     (h : SamePairs fv fv') (r : Result) : r ∈ perValue s k fv ok ↔ r ∈ perValue s k fv' ok :=
   perValue_pairs_invariant s k fv fv' ok h r
+
+/-- **set iteration order of the focus nodes is irrelevant**: a shape evaluated on two focus lists with the same members
+    (any order, any repetition) returns the same verdict and the same set of results — every Core and SPARQL-based
+    component, nested evaluations included, complete runs (`…_partial`: advanced-mode sh:expression is sampled) -/
+theorem focus_order_irrelevant (c : Ctx) (hab : c.o.abortOnFirst = false) (hadv : c.o.advanced = false) (rec' : Rec)
+    (s : Shape) (fl fl' : List Term) (hm : SameMem fl fl') (path : Option (List PathEntry)) :
+    OutSim (validateCore c rec' s fl path) (validateCore c rec' s fl' path) :=
+  validateCore_focus_set c hab hadv rec' s fl fl' hm path
 
 end Pyshacl.C09
